@@ -94,7 +94,7 @@ func buildSnapshotStream(w *W, idx int, seed int64) *snapStream {
 			})
 		}
 		h.wd.Log.take()
-		h.cfg.Txn.PInsert, h.cfg.Txn.PDelete, h.cfg.Txn.MaxLive = 40, 5, 1 << 20
+		h.cfg.Txn.PInsert, h.cfg.Txn.PDelete, h.cfg.Txn.MaxLive = 40, 5, 1<<20
 	}
 	// snapshot with transactions committing at the hook points
 	ntail := 0
